@@ -336,6 +336,11 @@ def scenario(rec, rng, cid):
             p["R"].value = spec["params"]["R"]       # non-default geometry
         if rng.random() < .5:
             p["baseline"].vary = False
+        if rng.random() < .6:
+            # a contact point guess of the user's own (measured units)
+            cpv = float(rng.uniform(-2e-7, 2e-7))
+            p["contact_point"].set(value=cpv, min=cpv - 1e-6, max=cpv + 1e-6,
+                                   vary=bool(rng.random() < .7))
         full = dict(model_key=mk, params_initial=p,
                     segment=int(rng.integers(2)), range_type="absolute",
                     range_x=[[0, 0], [-2e-6, 1e-6]][int(rng.integers(2))],
@@ -344,12 +349,15 @@ def scenario(rec, rng, cid):
                     method_kws={}, x_axis="tip position", y_axis="force",
                     optimal_fit_edelta=False, optimal_fit_num_samples=9)
         other = {"segment": 1 - full["segment"],
-                 "weight_cp": 2.5e-7, "range_x": [-1e-6, 5e-7],
+                 "weight_cp": 2.5e-7,
+                 # (an interval without data: the first call is unsuccessful)
+                 "range_x": [[-1e-6, 5e-7], [1.0, 2.0]][int(rng.integers(2))],
                  "gcf_k": 2.0, "method": "nelder",
                  "model_key": "hertz_cone" if mk != "hertz_cone"
                  else "hertz_para",
                  "range_type": "relative cp"}
-        key = sorted(other)[int(rng.integers(len(other)))]
+        keys = sorted(other) + ["range_x"]
+        key = keys[int(rng.integers(len(keys)))]
         first = dict(copy.deepcopy(full), **{key: other[key]})
         if key == "model_key":
             first.pop("params_initial")
@@ -360,7 +368,27 @@ def scenario(rec, rng, cid):
             a.fit_model(**first)
         except BaseException:  # noqa
             pass
-        g.call("fit_model", a.fit_model, **copy.deepcopy(full))
+        if "params_initial" in first:
+            # whatever became of that fit: the curve holds the initial
+            # parameters it was given (values as passed)
+            try:
+                st = a.get_initial_fit_parameters()
+                same_p = all(st[k].value == p[k].value and
+                             st[k].min == p[k].min and st[k].max == p[k].max
+                             and st[k].vary == p[k].vary for k in p)
+            except BaseException:  # noqa
+                same_p = True
+            rec.check(same_p, "stored-parameters-differ-from-passed",
+                      "after fit_model(params_initial=p, %s=%r) the curve "
+                      "holds other initial parameters than p (success=%r)"
+                      % (key, other[key], a.fit_properties.get("success")),
+                      case)
+        second = copy.deepcopy(full)
+        if "params_initial" in first and rng.random() < .5:
+            # the parameters were given with the first call (same values)
+            second.pop("params_initial")
+            case["second_call_without_params"] = True
+        g.call("fit_model", a.fit_model, **second)
         c.fit_model(**copy.deepcopy(full))
         rec.event("twin states compared")
         d = c03.same(c03.snapshot(a), c03.snapshot(c))
